@@ -372,7 +372,7 @@ def check_full_report(
     stats.cells += 3
     shown_pairs = _legend_pairs(str(legend.get("method")))
     expected_pairs = _legend_pairs(expected_method)
-    if shown_pairs != expected_pairs:
+    if sorted(shown_pairs) != sorted(expected_pairs):  # a mapping: the order of the entries in the config section is free
         out.append(_v("fullreport.legend-method", shown=legend.get("method"), expected=expected_method))
     for key, value in (("from", from_d), ("to", to_d)):
         shown = legend.get(key)
